@@ -6,11 +6,39 @@ PROOF_VO = ["theories/C17/Props.vo"]
 PROPS_V = "theories/C17/Props.v"
 EXTRACT = "extract/C17.v"
 DESIGN_REF = "DESIGN.md section 5, C17"
-TECHNIQUE = "TODO"
-RULE = "TODO"
-TRUSTED = []
-ASSUMPTIONS = []
-LEVEL_TEXT = "TODO"
-LEVEL_NOTE = "TODO"
+TECHNIQUE = ("Coq proof about an executable model of dsn.ParseSimple/FormatSimple/ParseURI/FormatURI/setValue (strings as code point lists, "
+             "Go index/slice expressions as operations that can yield Panic) over tag tables re-tabulated from dsn.TagToField on every run, "
+             "+ model-vs-implementation correspondence and an independent specification (declared struct tags) evaluated on the implementation's output")
+RULE = ("fn 3/2: FormatSimple and ParseSimple(FormatSimple(v)) for dsn.Info, tds.Info, a test struct with embedded + named struct members and aliases, KeyInfo: "
+        "every string member at 45 boundary texts (leading/trailing/multiple spaces, '=' signs, token-like texts, non-ASCII printable), all members at once, "
+        "every bool, 15 boundary ints incl. MinInt64/MaxInt64, then random members over the plain alphabet (any strconv.IsPrint code point but quotes and backslash); "
+        "fn 4: ParseURI(FormatURI(v)) (round trip through ParseURI, not Parse: FormatURI writes no scheme for these structs, so Parse would take the simple branch) with 43 boundary texts "
+        "(% & = ? # / : @ + ; quotes, NUL, newline, astral planes) per string member, the user/password presence matrix (empty user with password etc.), random Unicode strings of all planes; "
+        "host from [A-Za-z0-9.-]*, port numeric (FormatURI writes them unescaped); net/url's reading of the produced text is compared with the model's URL record; "
+        "fn 6: structured token lists: every declared alias x every quoting style x every boolean / integer / text spelling, later-wins for every pair of aliases of one member "
+        "(adjacent, separated, interleaved), unknown keys, the empty key, random token lists into zero and non-zero structs; "
+        "fn 5: ParseURI and Parse on hand-written and net/url-written URIs (repeated keys: last value wins, unknown keys, bad escapes, bad ports) and on arbitrary text; "
+        "fn 1/5 totality: ALL strings up to length 4 (6 thorough for ParseSimple, 5 for Parse/ParseURI) over the alphabet {' \" space = a b :// ? & % \\ -} on the test struct (keys a, b exist), "
+        "length 3 on dsn.Info/tds.Info, 48 hand-picked quote patterns, random strings of 1..40 fragments (keys, quotes, separators). "
+        "A panic is recovered and reported as class -1. Non-trivial = the text / member list is non-empty beyond the struct kind; distinct by (fn, input). "
+        "URI queries in which two different aliases of one member occur are not generated (result depends on Go map order).")
+TRUSTED = ["Coq 8.16.1 kernel + vm_compute/lazy (no native_compute)",
+           "hand-written model coq/theories/C17/Model.v of dsn/parse.go, format.go, util.go (tied by this correspondence check); tables Gen/GenC17.v written by harness/cmd/c17 from dsn.TagToField, reflect and strconv.IsPrint",
+           "net/url (url.Parse, URL.String, Userinfo, Values.Encode, Query): represented in the proofs by esc/unesc with unesc(esc s)=s and by the URL record; its actual reading of every produced URI is an input of the model run",
+           "strconv.ParseBool / ParseInt(s,10,64) / Itoa, fmt %q (strconv.Quote) on printable text without quotes and backslash: modelled from their documentation, compared on every case",
+           "harness/cmd/c17, ocaml/driver.ml, extraction with ExtrOcamlBasic only"]
+ASSUMPTIONS = ["strings are valid UTF-8; ParseSimple's byte-level Split/Index/last-byte tests only involve ASCII space, '=', quotes, which coincide with the code point level on valid UTF-8",
+               "simple form: values outside the documented alphabet (quotes, backslash, non-printable) are not modelled for FormatSimple (%q escapes them) and are outside the property",
+               "URI form: host and port must be acceptable to net/url unescaped (FormatURI builds Host by Sprintf); a port such as 'tls' or a struct member named scheme does not round-trip and is outside the property text (user, password, database, additional properties)",
+               "URI form: two DIFFERENT aliases of one member in a query (?user=a&username=b) are assigned in Go map order; the property only fixes the last value of a REPEATED key; such queries are not generated",
+               "ParseURI requires the tags hostname, port, username, password on string members (reflect panics otherwise, independent of the input string): all struct kinds used satisfy it",
+               "int members are 64 bit (GOARCH of the harness)",
+               "FromEnv is not driven (same TagToField table and setValue; its only own logic is the key transformation)"]
+LEVEL_TEXT = ("Machine-checked theorems about the model, for ALL inputs: C17_simple_roundtrip (ParseSimple(FormatSimple v) = v for all members over the documented alphabet incl. leading/trailing/multiple "
+              "spaces and '=' signs, all bools, all int64, every struct kind, any previous content of the target), C17_sequential + C17_later_wins (a space-joined list of quoted/unquoted tokens means "
+              "assignment in order, so a later key or alias overrides), C17_unknown_key (error whatever precedes or follows), C17_no_panic (no string makes ParseSimple panic or the model run out of fuel), "
+              "C17_tables_agree (TagToField's tables are the declared tags; the empty key matches nothing), C17_uri_roundtrip_partial (FormatURI->ParseURI on dsn.Info for all five texts given unesc(esc s)=s). "
+              "The URI round trip for tds.Info / embedding structs is stated (C17_uri_statement) but not proved; it is covered by the correspondence and specification check only.")
+LEVEL_NOTE = ("Trusted: Coq kernel, the hand-written model (validated by correspondence on ~135k cases per quick run), net/url and strconv/fmt as named, Go harness, extraction and OCaml driver. No axioms.")
 def nontrivial(c):
-    return True
+    return len(c[1]) > 12
